@@ -3,7 +3,10 @@ use std::sync::{
     atomic::{AtomicU64, Ordering::Relaxed},
 };
 
+#[cfg(not(feature = "verif"))]
 use parking_lot::RwLock;
+#[cfg(feature = "verif")]
+use rawdb::verif_sync::{RwLock};
 
 mod any_vec;
 mod budget;
